@@ -260,6 +260,28 @@ func init() {
 			return conc(strings.TrimSuffix(a, b))
 		}
 	}
+	// further pure string functions on concrete arguments (Go's own implementation is the semantics)
+	for nm, f := range map[string]func(a, b string) string{"strings.TrimRight": strings.TrimRight, "strings.TrimLeft": strings.TrimLeft, "strings.Trim": strings.Trim} {
+		name, fn := nm, f
+		intrinsics[name] = func(c *Ctx, st *State, in ssa.Instruction, args []Value) Value {
+			a, ok1 := concStr(args[0])
+			b, ok2 := concStr(args[1])
+			if !(ok1 && ok2) {
+				unsupported("%s on symbolic arguments", name)
+			}
+			return conc(fn(a, b))
+		}
+	}
+	for nm, f := range map[string]func(a string) string{"strings.TrimSpace": strings.TrimSpace, "strings.ToUpper": strings.ToUpper} {
+		name, fn := nm, f
+		intrinsics[name] = func(c *Ctx, st *State, in ssa.Instruction, args []Value) Value {
+			a, ok := concStr(args[0])
+			if !ok {
+				unsupported("%s on a symbolic string", name)
+			}
+			return conc(fn(a))
+		}
+	}
 	intrinsics["strings.ToLower"] = func(c *Ctx, st *State, in ssa.Instruction, args []Value) Value {
 		a, ok := args[0].(StrV)
 		if !ok || a.Conc == nil {
